@@ -123,6 +123,43 @@ def wire(o):
     return " ".join(out)
 
 
+def unwire(text):
+    """inverse of wire()"""
+    toks = text.split(" ")
+    pos = [0]
+
+    def sc(t):
+        if t == "N":
+            return None
+        if t == "T":
+            return True
+        if t == "F":
+            return False
+        if t[0] == "i":
+            return int(t[1:])
+        return dec(t[1:])
+
+    def go():
+        t = toks[pos[0]]
+        pos[0] += 1
+        if t == "[":
+            out = []
+            while toks[pos[0]] != "]":
+                out.append(go())
+            pos[0] += 1
+            return out
+        if t == "{":
+            out = {}
+            while toks[pos[0]] != "}":
+                k = sc(toks[pos[0]])
+                pos[0] += 1
+                out[k] = go()
+            pos[0] += 1
+            return out
+        return sc(t)
+    return go()
+
+
 def to_json(o):
     if isinstance(o, dict):
         return {"m": [[to_json(k), to_json(v)] for k, v in o.items()]}
@@ -727,10 +764,10 @@ def load_corpus():
 def run(chk):
     rng = chk.rng
     quick = chk.tier == "quick"
-    n_vals = 2500 if quick else 60000
-    n_plays = 700 if quick else 12000
+    n_vals = 4000 if quick else 60000
+    n_plays = 1100 if quick else 10000
     n_edits = 5 if quick else 8
-    n_verify = 220 if quick else 3000
+    n_verify = 500 if quick else 4000
     chk.rule = ("values and plays built from an alphabet of quotes, backslashes, control and zero-width characters, the "
                 "serializer's own delimiters ('ordereddict(', \"', '\", '), (') and look-alike scalars (1/'1'/True/'True'/None/'None'); "
                 "each play with several single edits (change, retype, insert, delete, reorder, wrap/unwrap/split/move, re-key, "
@@ -739,7 +776,7 @@ def run(chk):
                 "non-trivial = distinct canonical play whose exclusion succeeds (a digest exists)")
     chk.assumptions = [
         "SHA-256 is treated as injective (the theorems are about the serialised text; the harness compares hash_play with hashlib on the model's text)",
-        "GPG is replaced by a stand-in that accepts exactly the signature made for the digest it is shown; base64 signatures are well-formed",
+        "GPG is replaced by a stand-in that accepts exactly the signature made for the digest it is shown (and the shipped revocation list's real signature for that list's digest); whether base64.b64decode accepts a signature string is taken from the standard library",
         "YAML loading (ruamel) is outside the model: plays enter as CommentedMap/CommentedSeq objects (built directly or loaded from rendered text)",
         "floats, timestamps and binaries are outside the quantifier",
     ]
@@ -781,6 +818,22 @@ def run(chk):
     rt_lines = ["rt\t" + wire(v) for v in vals[:400]]
     out = run_driver("C18", lines + rt_lines)
     chk.compare("serialize", vals, impl, out[:len(vals)], show=to_json)
+    # failing-input search when the tie on the serializer broke: read the implementation's text with the
+    # model's decoder; if that yields another value which the implementation prints the same way, the
+    # two values are a collision
+    bad = [(v, t) for v, t, m in zip(vals, impl, out[:len(vals)]) if t != m and not t.startswith("crash:")][:400]
+    if bad:
+        got = run_driver("C18", ["decv\t" + t for _, t in bad])
+        for (v, t), g in zip(bad, got):
+            f = g.split("\t")
+            if f[0] == "some" and f[2] == "-":
+                try:
+                    v2 = unwire(f[1])
+                except Exception:
+                    continue
+                if canon(v2) != canon(v) and impl_ser(to_ruamel(v2)) == t:
+                    chk.failure("serializer not injective: two different values print as %r" % dec(t)[:200],
+                                {"op": "ser-pair", "a": to_json(v), "b": to_json(v2)})
     chk.compare("decode(ser v)=v (model self-check)", vals[:400], ["1"] * len(rt_lines), out[len(vals):], show=to_json)
     chk.sample({"serialize": to_json(vals[len(corpus) * 2 + 1]), "impl": dec(impl[len(corpus) * 2 + 1])})
 
